@@ -4,7 +4,10 @@ import TgModel.Props.C02
 import TgModel.Props.C06
 import TgModel.Props.C07
 import TgModel.Props.C08
+import TgModel.Props.C09
 import TgModel.Props.C10
+import TgModel.Props.C11
+import TgModel.Props.C12
 import TgModel.Props.C14
 import TgModel.Props.C15
 import TgModel.Props.C16
